@@ -46,7 +46,7 @@ def caught : List (String × List String) := [
   ("pickle", ["fickling.fickle.PickleDecodeError"]),
   ("plist", ["xml.parsers.expat.ExpatError", "builtins.ValueError", "builtins.IndexError"]),
   ("xml", ["xml.etree.ElementTree.ParseError"]),
-  ("yaml", ["yaml.error.YAMLError"])
+  ("yaml", ["yaml.error.YAMLError", "builtins.ValueError"])
 ]
 
 /-- ASSUMED: what each type's external parser raises on invalid syntax (validated by fault enumeration) -/
